@@ -218,6 +218,19 @@ try:
         C.judge("honest-key-ending-in-whitespace-octet", pol(2), xml=ksrxml.render_ksr(request([[k, other], [other, k]])), desc={"last_octet": hex(k["pub"][-1])}, built="accept")
         r2 = clone(request([[k]])); r2["bundles"][0]["keys"][0]["pub"] = k["pub"][:-1]
         C.judge("whitespace-octet-dropped-from-key", pol(1), xml=ksrxml.render_ksr(r2), strict=False, built="reject")
+    # canonical order is the order of the RDATA octets, not of the base64 texts that carry them: pairs on which the two orders disagree
+    import base64 as _b64
+    pool_ = [k for k in KEYS if k["alg"] == 13]
+    extra_ = []
+    while len([1 for a in pool_ + extra_ for b in pool_ + extra_ if a is not b and (a["pub"] < b["pub"]) != (_b64.b64encode(a["pub"]) < _b64.b64encode(b["pub"]))]) < 6 and len(extra_) < 40:
+        from cryptography.hazmat.primitives.asymmetric import ec as _ec
+        extra_.append(ksrxml.mk_key(_ec.generate_private_key(_ec.SECP256R1()), alg=13))
+    allk_ = pool_ + extra_
+    pairs_ = [(a, b) for a in allk_ for b in allk_ if a["pub"] < b["pub"] and (_b64.b64encode(a["pub"]) > _b64.b64encode(b["pub"]))]
+    for a, b in pairs_[: (4 if TIER == "quick" else 20)]:
+        C.judge("honest-octet-order-differs-from-base64-order", pol(1), xml=ksrxml.render_ksr(request([[b, a]])), desc={"tags": [a["tag"], b["tag"]]}, built="accept")
+        third_ = R.choice(pool_)
+        C.judge("honest-octet-order-differs-from-base64-order", pol(1), xml=ksrxml.render_ksr(request([[a, b] + ([third_] if third_ is not a and third_ is not b else [])])), built="accept")
     # a signature is the octet string, not the integer: an RSA signature that starts with a zero octet, handed in with that octet dropped
     # (or padded with one more), is a changed signature
     rk = [k for k in KEYS if k["alg"] in (8, 10)][:3]
